@@ -37,6 +37,31 @@ def numpy_refs(prog, module_names=None):
     return sorted(set(out))
 
 
+def call_hazards(prog, module_names=None):
+    """[(module path, line, what, why)]: calls whose meaning changed in the installed NumPy major version in a way
+    that breaks ordinary inputs (table; one line of reason each)."""
+    import numpy
+    major = int(numpy.__version__.split(".")[0])
+    out = []
+    for m in prog.modules.values():
+        if module_names is not None and m.name not in module_names:
+            continue
+        for n in ast.walk(m.tree):
+            if not isinstance(n, ast.Call):
+                continue
+            d = prog.dotted_of(m, n.func) if isinstance(n.func, (ast.Attribute, ast.Name)) else None
+            if d is None and isinstance(n.func, ast.Name):
+                r = prog.resolve_name(m, n.func.id)
+                d = r[1] if r and r[0] == "ext" else None
+            if d == "numpy.array" and major >= 2 and any(
+                    k.arg == "copy" and isinstance(k.value, ast.Constant) and k.value.value is False for k in n.keywords):
+                out.append((m.path, n.lineno, "numpy.array(..., copy=False)",
+                            f"on NumPy {numpy.__version__} `copy=False` means *never copy* and raises ValueError whenever "
+                            f"a copy is needed -- for every Python scalar, list or array of another dtype "
+                            f"(np.asarray is the copy-if-needed spelling)"))
+    return out
+
+
 def resolves(dotted):
     """(exists in installed numpy, removed-in-2 name or None)."""
     import numpy
